@@ -69,7 +69,7 @@ CHECKS = [
               'thorough from package / packages / all / skip, plus beartyping blocks incl. nested), label counts per name (1-2 / 1-3) and 3 '
               'concrete pairwise-different configurations. Solver variables: every label of every registered and queried name, i.e. every '
               'aliasing pattern. make_package_names_from_args is replaced by a pass-through (identifier syntax is outside the claim); skip '
-              'lists are driven through _blacklist_packages. The built-in exclusion is covered through one representative ('beartype', a label constant any symbolic label may alias). Violations are replayed with concrete names through the public beartype.claw API.',
+              'lists are driven through _blacklist_packages. The built-in exclusion is covered through one representative (the package beartype itself, a label constant any symbolic label may alias). Violations are replayed with concrete names through the public beartype.claw API.',
          text='For each enumerated history skeleton the real registry functions run on symbolic names; on every feasible aliasing path '
               'the path condition must entail: each registration raises BeartypeClawHookException iff the model says it conflicts (and a '
               'raising call leaves every later query unchanged), the final get_package_conf_or_none equals the nearest registered '
